@@ -8,6 +8,9 @@
 //!   bre <type> <hx>            decode then encode again        -> `ok <hx>` | `err`
 //!   crt <algo> <hx>            decompress(compress(x))         -> `ok <hx>` | `err`   (model: hypothesis)
 //!   dcp <algo> <hx>            decompress(arbitrary bytes)     -> `safe`              (model: total by assumption)
+//!   cseq <algo> <hx-bad>,<hx-bad>.. <hx>   on ONE thread: decompress each damaged input (results ignored), then
+//!                              decompress(compress(x)) -> `ok <hx>`: a result depends on the input alone, not on what
+//!                              the same thread decoded (or failed to decode) before
 //!   cmp <codec> <algo> <n> <hx>,<hx>..   the wire composition encode/batch/compress then inverse -> `ok <hx>,..`
 //! All decoders run in the guarded child (panic -> PANIC, abort -> ABORT).
 use crate::childrun::{guarded, Outcome};
@@ -130,6 +133,17 @@ pub fn child(op: &str, input: &[u8]) -> Option<String> {
             match c { Err(_) => "err-compress".into(), Ok(z) => match decompressor(arg).decompress(z) { Ok(b) => format!("ok {}", hx(&b)), Err(_) => "err".into() } }
         }
         "dcp" => { let _ = decompressor(arg).decompress(Bytes::from(input.to_vec())); "safe".into() }
+        "cseq" => {
+            // input: u32 count, then (u32 len, bytes)* : the damaged inputs first, the payload last
+            let mut parts: Vec<Vec<u8>> = vec![];
+            let mut i = 4usize;
+            let n = u32::from_be_bytes([input[0], input[1], input[2], input[3]]) as usize;
+            for _ in 0..n { let l = u32::from_be_bytes([input[i], input[i + 1], input[i + 2], input[i + 3]]) as usize; parts.push(input[i + 4..i + 4 + l].to_vec()); i += 4 + l; }
+            let payload = parts.pop().unwrap_or_default();
+            let d = decompressor(arg);
+            for bad in parts { let _ = d.decompress(Bytes::from(bad)); }
+            match compressor(arg).compress(Bytes::from(payload)) { Err(_) => "err-compress".into(), Ok(z) => match decompressor(arg).decompress(z) { Ok(b) => format!("ok {}", hx(&b)), Err(_) => "err".into() } }
+        }
         _ => return None,
     })
 }
@@ -140,7 +154,7 @@ fn guarded_line(op: &str, input: &[u8]) -> (String, Result<(), String>) {
     if crate::childrun::hangs() >= crate::childrun::MAX_HANGS { return ("NOT-RUN-AFTER-HANGS".into(), Ok(())); }
     match guarded(op, input) {
         Outcome::Value(v) => {
-            let own = !(op.starts_with("dcp") || op.starts_with("crt") || op.starts_with("dcx"));
+            let own = !(op.starts_with("dcp") || op.starts_with("crt") || op.starts_with("dcx") || op.starts_with("cseq"));
             match crate::childrun::alloc_excess(op, input.len(), own) { Some(w) => (v, Err(w)), None => (v, Ok(())) }
         }
         Outcome::Panic(p) => ("PANIC".into(), Err(format!("{op} panicked: {p}"))),
@@ -343,6 +357,27 @@ pub fn run(cfg: &Cfg) {
             one(&mut out, &["dcp", a, &hx(&z)]);
         }
     }
+    // ---- history independence: damaged inputs of every kind first, then a round trip, all on one thread
+    for a in ["gzip:bal", "zlib:bal", "zstd:bal", "lz4:-", "brg:dflt"] {
+        for _ in 0..cfg.n(12, 400) {
+            let mut bads: Vec<String> = vec![];
+            for _ in 0..(1 + r.below(3)) {
+                let cl = r.below(5); let (p, _) = payload(&mut r, cl, 70_000);
+                let mut z = compressor(a).compress(Bytes::from(p)).map(|b| b.to_vec()).unwrap_or_default();
+                match if z.len() < 8 { 9 } else { r.below(6) } {
+                    0 => { let k = 1 + r.below(z.len() as u64 - 1) as usize; z.truncate(k); }              // cut anywhere
+                    1 => { let k = z.len() - 1 - r.below(8.min(z.len() as u64 - 1)) as usize; z[k] ^= 1 << r.below(8); } // damage near the end: the payload has been produced by then
+                    2 => { let k = z.len() / 2 + r.below(z.len() as u64 / 2) as usize; z[k] ^= 1 << r.below(8); }       // damage in the second half
+                    3 => { let n = 1 + r.below(9) as usize; z.extend(r.bytes(n)); }                          // trailing bytes
+                    4 => { let k = r.below(z.len() as u64) as usize; z[k] ^= 1 << r.below(8); }              // damage anywhere
+                    _ => { let n = r.below(64) as usize; z = r.bytes(n); }
+                }
+                bads.push(hx(&z));
+            }
+            let cl = r.below(8); let (p, _) = payload(&mut r, cl, 20_000);
+            one(&mut out, &["cseq", a, &bads.join(","), &hx(&p)]);
+        }
+    }
     // ---- crafted frame headers: every descriptor byte, with size fields that declare far more than is present
     for a in ["gzip:-", "zlib:-", "zstd:-", "lz4:-", "brg:-"] {
         for z in crafted_headers(a, cfg.tier == Tier::Thorough) {
@@ -503,6 +538,16 @@ fn one(out: &mut Out, t: &[&str]) {
             out.case(&line, &imp, mon);
         }
         "dcp" => { let (imp, mon) = guarded_line(&format!("dcp:{}", t[1]), &unhx(t[2])); out.case(&line, &imp, mon); }
+        "cseq" => {
+            let bads: Vec<Vec<u8>> = t[2].split(',').map(unhx).collect();
+            let payload = unhx(t[3]);
+            let mut input = ((bads.len() + 1) as u32).to_be_bytes().to_vec();
+            for b in bads.iter().chain(std::iter::once(&payload)) { input.extend_from_slice(&(b.len() as u32).to_be_bytes()); input.extend_from_slice(b); }
+            let (imp, mut mon) = guarded_line(&format!("cseq:{}", t[1]), &input);
+            if mon.is_ok() && imp != format!("ok {}", hx(&payload)) { mon = Err(format!("{}: after decoding {} damaged input(s) on the same thread, decompress(compress(x)) != x for a {}-byte payload ({})", t[1], bads.len(), payload.len(), &imp[..imp.len().min(40)])); }
+            out.stat(&format!("cseq_{}", t[1].split(':').next().unwrap()));
+            out.case(&line, &imp, mon);
+        }
         _ => panic!("bad codec case {line}"),
     }
 }
